@@ -20,7 +20,13 @@ pub fn run(ctx: &mut Ctx, prop: &str) {
     match prop {
         "C01" => all(ctx, prop, c01_case),
         "C02" => all(ctx, prop, c02_case),
-        "C03" => all(ctx, prop, c03_case),
+        "C03" => {
+            all(ctx, prop, c03_case);
+            if std::env::var("PCV_LINCODE_PROBE").is_ok() {
+                probe_metadata(ctx);
+                probe_nv0(ctx);
+            }
+        }
         "C08" => all(ctx, prop, c08_case),
         "C10" => all(ctx, prop, c10_case),
         "C19" => all(ctx, prop, c19_case),
@@ -972,4 +978,80 @@ fn c19<S: Lc>(ctx: &mut Ctx, id: &str, rng: &mut Rng, spec: &Spec) {
     ask_open::<S>(ctx, id, run);
     let _ = rng;
     ctx.rep.case(&format!("{} proof bytes {}", describe(run), measured), Some(format!("{}/{:?}/{}/{}", S::NAME, spec.sizes, spec.wf, spec.sec)));
+}
+
+// ------------------------------------------------------------------------------------------------
+// probes (only with PCV_LINCODE_PROBE set; they write notes, never verdicts): observations outside
+// the properties' quantifiers that were examined while modelling the verifier
+// ------------------------------------------------------------------------------------------------
+
+/// The verifier takes `n_ext_cols` from the commitment's metadata and never compares it with the
+/// length of `encode(v)`.  A committer who publishes the honest root with `n_ext_cols = 2` makes the
+/// verifier open 2 columns at positions in {0, 1}; `v' = v + d*(X-1)(X-w)` encodes to the same
+/// entries there, so two different values verify for the same commitment.
+fn probe_metadata(ctx: &mut Ctx) {
+    let mut rng = rng_for(ctx.seed, "probe/metadata", 0);
+    let spec = Spec { sizes: vec![40], wf: true, sec: 128, rho_inv: 4, kind: 0 };
+    let pp = Uni::params(&mut rng, 40, true, 128, 4);
+    let vecs = vec![gen_vec::<Uni>(&mut rng, 40, 0)];
+    let point = vec![Fr::rand(&mut rng)];
+    let pre = LogSponge::fresh();
+    let run = match honest::<Uni>(&pp, &vecs, &point, &pre) {
+        Ok(r) => r,
+        Err(e) => {
+            ctx.rep.notes.push(format!("probe/metadata: honest run failed: {}", e));
+            return;
+        }
+    };
+    let _ = spec;
+    let c0 = &run.comms[0];
+    let st = &run.states[0];
+    let p0 = &run.proof[0];
+    let (n, m, k) = (c0.metadata.n_rows, c0.metadata.n_cols, c0.metadata.n_ext_cols);
+    let mut c = c0.clone();
+    c.metadata.n_ext_cols = 2;
+    // w = generator of the size-k domain: E(x)[1] = x(w)
+    use ark_poly::{EvaluationDomain, GeneralEvaluationDomain};
+    let w = GeneralEvaluationDomain::<Fr>::new(k).unwrap().element(1);
+    let mut outcomes = vec![];
+    for delta in [Fr::zero(), rand_nonzero(&mut rng)] {
+        let mut v2 = p0.opening.v.clone();
+        if m < 3 {
+            return;
+        }
+        v2[0] += delta * w;
+        v2[1] -= delta * (Fr::from(1u64) + w);
+        v2[2] += delta;
+        let (a, _b) = tensor::<Uni>(&point, m, n).unwrap();
+        let value2 = inner(&v2, &a);
+        let (_r, idx, _) = match transcript::<Uni>(&pp, &c, &point, &v2, &p0.well_formedness, &pre) {
+            Some(x) => x,
+            None => return,
+        };
+        let tree = tree_of(&st.leaves);
+        let cols: Vec<Vec<Fr>> = idx.iter().map(|q| (0..n).map(|i| st.ext_mat.entries[i][*q]).collect()).collect();
+        let paths: Vec<_> = idx.iter().map(|q| tree.generate_proof(*q).unwrap()).collect();
+        let proof = vec![MProof { opening: MProofSingle { paths, v: v2, columns: cols }, well_formedness: p0.well_formedness.clone() }];
+        let (out, _) = check::<Uni>(&pp, &[c.clone()], &point, &[value2], &proof, &pre);
+        outcomes.push(format!("delta{}0: value {} p(z): positions {:?} -> {:?}", if delta.is_zero() { "=" } else { "!=" }, if value2 == run.values[0] { "=" } else { "!=" }, idx, out));
+    }
+    ctx.rep.notes.push(format!(
+        "probe/metadata: uni-ligero 40 coefficients, honest metadata ({}, {}, {}), published n_ext_cols = 2: {}",
+        n,
+        m,
+        k,
+        outcomes.join(" | ")
+    ));
+}
+
+/// multilinear Ligero with zero variables: `compute_dimensions(1) = (2, 1)` but `tensor` returns a
+/// one-entry `b`
+fn probe_nv0(ctx: &mut Ctx) {
+    let mut rng = rng_for(ctx.seed, "probe/nv0", 0);
+    let pp = Ml::params(&mut rng, 0, true, 128, 2);
+    let r = honest::<Ml>(&pp, &[vec![Fr::from(5u64)]], &[], &LogSponge::fresh());
+    ctx.rep.notes.push(format!("probe/nv0: multilinear Ligero, 0 variables, constant 5: {}", match r {
+        Ok(run) => format!("commit/open ok, shapes {}", describe(&run)),
+        Err(e) => e,
+    }));
 }
